@@ -201,10 +201,48 @@ def many_messages_stage(ck, rng, stats):
         sb.cleanup()
 
 
+def several_maildirs_stage(ck, rng, stats):
+    """flag and flags keep every message in ITS OWN maildir, also when one run visits several maildirs that contain one another or share
+    a prefix (box, box/sub, box/sub/deep, box2), in any order"""
+    orders = [['box', 'box/sub', 'box/sub/deep', 'box2'], ['box/sub', 'box', 'box2', 'box/sub/deep'], ['box2', 'box/sub/deep', 'box/sub', 'box']]
+    for order in orders:
+        for rule, sub0, sub1, fl in (('flag !new', 'new', 'cur', ':2,S'), ('flag new', 'cur', 'new', ':2,'), ('flags "F"', 'new', 'new', ':2,F')):
+            sb = mdrun.Sandbox()
+            for md in order:
+                p = sb.maildir(md)
+                for i in range(2):
+                    sb.add(p, sub0, b'To: a\nX-Where: %s\n\nbody %d\n' % (md.encode(), i), name='1500000000.%d_1.h%s' % (i, ':2,S' if sub0 == 'cur' else ''))
+            two_blocks = rng.randrange(2)
+            guard = 'new and ' if sub0 == 'new' else ''        # (cur/ is walked after new/: a message flagged into new/ is not met again)
+            body = '\tmatch %sheader "To" /a/ %s\n' % (guard, rule)
+            if two_blocks:
+                conf = ''.join('maildir "%s/%s" {\n%s}\n' % (sb.root, md, body) for md in order)
+            else:
+                conf = 'maildir { %s } {\n%s}\n' % (' '.join('"%s/%s"' % (sb.root, md) for md in order), body)
+            cp = sb.write_conf(conf.encode())
+            rc, out, err = sb.run([], conf=cp)
+            stats['evals'] += 1
+            bad = None
+            for md in order:
+                snap = sb.snapshot(os.path.join(sb.root, md))
+                mine = [(sub, n) for (sub, n), b in snap.items() if b'X-Where: %s\n' % md.encode() in b]
+                foreign = [(sub, n) for (sub, n), b in snap.items() if b'X-Where: %s\n' % md.encode() not in b]
+                if len(mine) != 2 or foreign or any(sub != sub1 for sub, n in mine):
+                    bad = 'maildir %s holds %r of its own and %r foreign message(s) after "%s" (expected its own two in %s)' % (md, mine, foreign, rule, sub1)
+                    break
+            if bad or rc != 0:
+                ck.violation('maildirs %r (%s), rule "%s": %s (exit %d)' % (order, 'one block each' if two_blocks else 'one block', rule, bad or 'non-zero exit', rc),
+                             {'stage': 'several-maildirs', 'config': conf, 'exit': rc, 'stderr': err[-300:].decode(errors='replace')})
+            else:
+                stats['nontrivial'].add(('several', tuple(order), rule))
+            sb.cleanup()
+
+
 def run(ck):
     rng = ck.rng
     stats = dict(evals=0, nontrivial=set(), invalid=0)
     many_messages_stage(ck, rng, stats)
+    several_maildirs_stage(ck, rng, stats)
     scens = []
     acts = ['move', 'flag_new', 'flag_cur', 'flags', 'move_flag', 'flag_move', 'flags_move']
     n = 160 if ck.tier == 'quick' else 3000
@@ -247,7 +285,7 @@ def run(ck):
     ck.coverage.update({
         'evaluations': stats['evals'],
         'distinct_nontrivial': len(stats['nontrivial']),
-        'rule': 'one message per run; file name from 17 suffix shapes (absent, empty, sorted/unsorted/duplicate letters, all 52 letters, invalid: wrong version, '
+        'rule': 'nine runs over four maildirs that contain one another or share a prefix (flag / flags must keep each message in its own maildir); then one message per run; file name from 17 suffix shapes (absent, empty, sorted/unsorted/duplicate letters, all 52 letters, invalid: wrong version, '
                 'missing comma, digit, dash, second suffix), both subdirectories, action from {move, flag new, flag !new, flags, move+flag, flag+move, flags+move}, '
                 'destination maildir names with space, %, UTF-8 and ":", source maildir names with ":" and with a backslash followed by a digit, 0-5 pre-existing candidate names and five runs with 128-300 of them in a row; six runs of three messages under an invalid flags string and two in which the new/ of the destination is renamed away after the first delivery; a quarter of the runs and one per action and subdirectory with the rename failing with EXDEV (copy path); clock/pid/host/random pinned; five host-name lengths that put the generated name at NAME_MAX-2 .. NAME_MAX+2; '
                 'non-trivial = valid flags (the message must be renamed); distinct = distinct (name, subdir, action, prepopulation, letters)',
